@@ -11,8 +11,9 @@ inductive RegEv
   | deleted (e : Entry)                       -- a binding delete call was accepted
   | entityGone (p : Nat) (ent : List Nat)     -- peer `p` announced the removal of its entity `ent`
   | peerGone (p : Nat)                        -- the connection of peer `p` was removed
+  | entitiesGone (p : Nat) (es : List (List Nat))   -- a full announcement of peer `p` no longer lists its entities `es`
   | other
-deriving Repr
+deriving Repr, DecidableEq
 
 /-- SPEC: the bindings in force, as a membership predicate, after one more registry event -/
 def specStep (holds : Entry → Bool) : RegEv → Entry → Bool
@@ -20,6 +21,7 @@ def specStep (holds : Entry → Bool) : RegEv → Entry → Bool
   | .deleted e => fun x => x ≠ e && holds x
   | .entityGone p ent => fun x => !(x.2.1 = p && x.2.2.1 = ent) && holds x
   | .peerGone p => fun x => x.2.1 ≠ p && holds x
+  | .entitiesGone p es => fun x => !(x.2.1 = p && es.contains x.2.2.1) && holds x
   | .other => holds
 
 def specFrom (holds : Entry → Bool) (evs : List RegEv) : Entry → Bool := evs.foldl specStep holds
@@ -33,6 +35,7 @@ def evOf (w : W) : Op → RegEv
   | .call p _ _ (.unbind c s) => if connected w p && callOk w p (.unbind c s) then .deleted (s, p, c) else .other
   | .entRem p e _ _ => if connected w p && hasEnt w p e then .entityGone p e else .other
   | .drop p => .peerGone p
+  | .full p keep _ _ => if connected w p && !fullEmpty w p keep then .entitiesGone p (fullRemoved w p keep) else .other
   | _ => .other
 
 def trace : W → List Op → List RegEv
@@ -564,6 +567,125 @@ theorem step_reann_inv (w : W) (p ctr : Nat) (ref : Option Nat) (ack : Bool) (hi
   · exact hF b.2.1 b.2.2.1 hold
   · exact hold
 
+/-! #### full discovery notification -/
+
+theorem binds_processFull (w : W) (p : Nat) (keep : List (List Nat)) (ctr : Nat) (ack : Bool) :
+    (processFull w p keep ctr ack).1.binds =
+      if connected w p && !fullEmpty w p keep then
+        w.binds.filter fun b => !((fullRemoved w p keep).any fun e => entDrops w.cfg p e b)
+      else w.binds := by
+  unfold processFull
+  cases hc : connected w p <;> cases he : fullEmpty w p keep <;> simp [binds_bump, applyFull, setPeer]
+
+theorem feats_processFull (w : W) (p : Nat) (keep : List (List Nat)) (ctr : Nat) (ack : Bool) (q : Nat) :
+    ((processFull w p keep ctr ack).1.peers q).feats =
+      if (connected w p && !fullEmpty w p keep) && q = p then
+        ((w.peers p).feats.filter fun f => !(fullRemoved w p keep).contains f.ent) ++
+          (w.fresh.feats.filter fun f => (fullAdded w p keep).contains f.ent)
+      else (w.peers q).feats := by
+  unfold processFull
+  cases hc : connected w p <;> cases he : fullEmpty w p keep
+  · simp
+  · simp
+  · simp only [Bool.not_true, Bool.false_eq_true, if_false, Bool.not_false, Bool.true_and, if_true, decide_eq_true_eq,
+      bump, sendN, applyFull, setPeer]
+    split <;> simp_all
+  · simp only [Bool.not_true, Bool.false_eq_true, if_false, if_true, Bool.and_false, Bool.false_and, setPeer]
+    split
+    · rename_i h; subst h; simp only [feats_request, sendN]
+    · rfl
+
+theorem frame_processFull (w : W) (p : Nat) (keep : List (List Nat)) (ctr : Nat) (ack : Bool) :
+    (processFull w p keep ctr ack).1.cfg = w.cfg ∧ (processFull w p keep ctr ack).1.fresh = w.fresh := by
+  unfold processFull
+  cases hc : connected w p <;> cases he : fullEmpty w p keep <;> simp [bump, applyFull, setPeer]
+
+theorem step_full_inv (w : W) (p : Nat) (keep : List (List Nat)) (ctr : Nat) (ack : Bool) (hinv : Inv w) :
+    Inv (processFull w p keep ctr ack).1 := by
+  intro b hb
+  rw [binds_processFull] at hb
+  unfold hasEnt
+  rw [feats_processFull]
+  cases hgo : (connected w p && !fullEmpty w p keep) with
+  | false =>
+    simp only [hgo, Bool.false_eq_true, if_false, Bool.false_and] at hb ⊢
+    exact hinv b hb
+  | true =>
+    simp only [hgo, if_true, List.mem_filter, Bool.not_eq_true', Bool.true_and, decide_eq_true_eq] at hb ⊢
+    have hold := hinv b hb.1
+    by_cases hq : b.2.1 = p
+    · simp only [hq, if_true]
+      have hne : (fullRemoved w p keep).contains b.2.2.1 = false := by
+        cases hcn : (fullRemoved w p keep).contains b.2.2.1 with
+        | false => rfl
+        | true =>
+          have hm : b.2.2.1 ∈ fullRemoved w p keep := by simpa using hcn
+          have : ((fullRemoved w p keep).any fun e => entDrops w.cfg p e b) = true := by
+            rw [List.any_eq_true]; exact ⟨b.2.2.1, hm, entDrops_own w.cfg p b.2.2.1 b hq rfl⟩
+          rw [this] at hb; cases hb.2
+      unfold hasEnt at hold
+      rw [hq] at hold
+      rw [List.any_eq_true] at hold ⊢
+      obtain ⟨f, hf, hfe⟩ := hold
+      have hfe' : f.ent = b.2.2.1 := by simpa using hfe
+      exact ⟨f, List.mem_append.mpr (Or.inl (List.mem_filter.mpr ⟨hf, by rw [hfe', hne]; rfl⟩)), hfe⟩
+    · simp only [hq, if_false]
+      exact hold
+
+theorem step_full_sound (w : W) (p : Nat) (keep : List (List Nat)) (ctr : Nat) (ack : Bool) (holds : Entry → Bool)
+    (hs : Sound w holds) :
+    Sound (processFull w p keep ctr ack).1 (specStep holds (evOf w (.full p keep ctr ack))) := by
+  intro x hx
+  rw [binds_processFull] at hx
+  simp only [evOf]
+  split at hx
+  · rename_i hgo
+    simp only [List.mem_filter, Bool.not_eq_true'] at hx
+    have hx' : (decide (x.2.1 = p) && (fullRemoved w p keep).contains x.2.2.1) = false := by
+      cases h : (decide (x.2.1 = p) && (fullRemoved w p keep).contains x.2.2.1) with
+      | false => rfl
+      | true =>
+        simp only [Bool.and_eq_true, decide_eq_true_eq] at h
+        have hm : x.2.2.1 ∈ fullRemoved w p keep := by simpa using h.2
+        have : ((fullRemoved w p keep).any fun e => entDrops w.cfg p e x) = true := by
+          rw [List.any_eq_true]; exact ⟨x.2.2.1, hm, entDrops_own w.cfg p x.2.2.1 x h.1 rfl⟩
+        rw [this] at hx; cases hx.2
+    simp only [hgo, if_true, specStep, Bool.and_eq_true, Bool.not_eq_true']
+    exact ⟨hx', hs x hx.1⟩
+  · rename_i hgo
+    simp only [hgo, Bool.false_eq_true, if_false, specStep]
+    exact hs x hx
+
+theorem step_full_agree (w : W) (p : Nat) (keep : List (List Nat)) (ctr : Nat) (ack : Bool) (holds : Entry → Bool)
+    (hc : w.cfg.entRemovalAnyPeer = false) (hag : Agree w holds) :
+    Agree (processFull w p keep ctr ack).1 (specStep holds (evOf w (.full p keep ctr ack))) := by
+  intro x
+  constructor
+  · intro hx
+    exact step_full_sound w p keep ctr ack holds (fun y hy => (hag y).mp hy) x hx
+  · intro hx
+    rw [binds_processFull]
+    simp only [evOf] at hx
+    split
+    · rename_i hgo
+      simp only [hgo, if_true, specStep, Bool.and_eq_true, Bool.not_eq_true'] at hx
+      rw [List.mem_filter]
+      refine ⟨(hag x).mpr hx.2, ?_⟩
+      simp only [Bool.not_eq_true']
+      rw [List.any_eq_false]
+      intro e he
+      cases h : entDrops w.cfg p e x with
+      | false => simp
+      | true =>
+        have h' := (entDrops_clean w.cfg hc p e x).mp h
+        have : (decide (x.2.1 = p) && (fullRemoved w p keep).contains x.2.2.1) = true := by
+          simp only [Bool.and_eq_true, decide_eq_true_eq]
+          exact ⟨h'.1, by rw [h'.2]; simpa using he⟩
+        rw [this] at hx; cases hx.1
+    · rename_i hgo
+      simp only [hgo, Bool.false_eq_true, if_false, specStep] at hx
+      exact (hag x).mpr hx
+
 /-! #### one step, then histories -/
 
 theorem step_frame (w : W) (op : Op) : (step w op).1.cfg = w.cfg ∧ (step w op).1.fresh = w.fresh := by
@@ -576,6 +698,7 @@ theorem step_frame (w : W) (op : Op) : (step w op).1.cfg = w.cfg ∧ (step w op)
   | conn p => exact ⟨(frame_connPeer w p).2.1, (frame_connPeer w p).2.2⟩
   | setData a fn v => exact ⟨(frame_localSet w a fn v).2.1, (frame_localSet w a fn v).2.2.1⟩
   | reann p ctr ref ack => exact ⟨(frame_processReann w p ctr ref ack).2.1, (frame_processReann w p ctr ref ack).2.2⟩
+  | full p keep ctr ack => exact frame_processFull w p keep ctr ack
 
 theorem step_invF (w : W) (op : Op) (hF : InvF w) : InvF (step w op).1 := by
   refine invF_of w _ (step_frame w op).2 ?_ hF
@@ -625,6 +748,16 @@ theorem step_invF (w : W) (op : Op) (hF : InvF w) : InvF (step w op).1 := by
     split at hf
     · right; exact hf
     · left; exact hf
+  | full p keep ctr ack =>
+    rw [show (step w (.full p keep ctr ack)).1 = (processFull w p keep ctr ack).1 from rfl, feats_processFull] at hf
+    split at hf
+    · rename_i hq
+      simp only [Bool.and_eq_true, decide_eq_true_eq] at hq
+      rw [List.mem_append] at hf
+      rcases hf with hf | hf
+      · left; rw [hq.2]; exact (List.mem_filter.mp hf).1
+      · right; exact (List.mem_filter.mp hf).1
+    · left; exact hf
 
 theorem step_inv (w : W) (op : Op) (hinv : Inv w) (hF : InvF w) (hok : opOk w.fresh op) : Inv (step w op).1 := by
   cases op with
@@ -642,6 +775,7 @@ theorem step_inv (w : W) (op : Op) (hinv : Inv w) (hF : InvF w) (hok : opOk w.fr
     exact inv_of_subset w _ hinv (fun b hb => by rw [show (step w (.setData a fn v)).1 = (localSet w a fn v).1 from rfl, hf.1] at hb; exact hb)
       (fun b _ => hf.2.2.2 b.2.1)
   | reann p ctr ref ack => exact step_reann_inv w p ctr ref ack hinv hF
+  | full p keep ctr ack => exact step_full_inv w p keep ctr ack hinv
 
 theorem step_sound (w : W) (op : Op) (holds : Entry → Bool) (hinv : Inv w) (hs : Sound w holds) :
     Sound (step w op).1 (specStep holds (evOf w op)) := by
@@ -669,6 +803,7 @@ theorem step_sound (w : W) (op : Op) (holds : Entry → Bool) (hinv : Inv w) (hs
     intro x hx
     rw [show (step w (.reann p ctr ref ack)).1 = (processReann w p ctr ref ack).1 from rfl, (frame_processReann w p ctr ref ack).1] at hx
     exact hs x hx
+  | full p keep ctr ack => exact step_full_sound w p keep ctr ack holds hs
 
 theorem step_agree (w : W) (op : Op) (holds : Entry → Bool) (hu : w.cfg.unbindDisjunct = false)
     (he : w.cfg.entRemovalAnyPeer = false) (hinv : Inv w) (hag : Agree w holds) :
@@ -697,6 +832,7 @@ theorem step_agree (w : W) (op : Op) (holds : Entry → Bool) (hu : w.cfg.unbind
     intro x
     rw [show (step w (.reann p ctr ref ack)).1 = (processReann w p ctr ref ack).1 from rfl, (frame_processReann w p ctr ref ack).1]
     exact hag x
+  | full p keep ctr ack => exact step_full_agree w p keep ctr ack holds he hag
 
 theorem run_sound (ops : List Op) : ∀ (w : W) (holds : Entry → Bool), Inv w → InvF w → Sound w holds →
     (∀ op ∈ ops, opOk w.fresh op) → Sound (run w ops) (specFrom holds (trace w ops)) := by
